@@ -874,7 +874,12 @@ func (m *mapOrder) callEffects(info *types.Info, fd *ast.FuncDecl, call *ast.Cal
 			}
 			return effs
 		}
-		if _, ok := fn.Type().Underlying().(*types.Signature); ok {
+		if sig, ok := fn.Type().Underlying().(*types.Signature); ok {
+			// the `yield` of an iterator literal (func(yield func(T) bool)): what it runs is the body of the consumer's
+			// range loop, whose effects are accounted for where that loop is written
+			if sig.Results().Len() == 1 && types.TypeString(sig.Results().At(0).Type(), nil) == "bool" && isIteratorYield(info, fd, fn) {
+				return nil
+			}
 			// inside a summary the call of a function-valued parameter stays symbolic: each call site of the
 			// summarised function substitutes what it passes
 			if m.summarising > 0 {
@@ -1365,4 +1370,21 @@ func (m *mapOrder) substituteFuncArg(info *types.Info, fd *ast.FuncDecl, call *a
 		}
 	}
 	return unknown
+}
+
+// isIteratorYield: v is the single parameter of a function literal inside fd (the shape of an iter.Seq / iter.Seq2
+// implementation).
+func isIteratorYield(info *types.Info, fd *ast.FuncDecl, v *types.Var) bool {
+	found := false
+	ast.Inspect(fd.Body, func(n ast.Node) bool {
+		fl, ok := n.(*ast.FuncLit)
+		if !ok || fl.Type.Params == nil || len(fl.Type.Params.List) != 1 || len(fl.Type.Params.List[0].Names) != 1 {
+			return true
+		}
+		if info.Defs[fl.Type.Params.List[0].Names[0]] == v && (fl.Type.Results == nil || len(fl.Type.Results.List) == 0) {
+			found = true
+		}
+		return true
+	})
+	return found
 }
